@@ -8,7 +8,9 @@
 (* e ::= [k |-> "int"|"real"|"str"|"id", v]  |  [k |-> "un", op, a]         *)
 (*     | [k |-> "bin", op, l, r] | [k |-> "call", f, args] | [k |-> "agg",  *)
 (*       items] | [k |-> "rep", a, n] | [k |-> "interval", lo, lop, x, hop, *)
-(*       hi]                                                                *)
+(*       hi] | [k |-> "query", v, src, cond] | [k |-> "dot", a, name]       *)
+(*     | [k |-> "group", a, name] | [k |-> "index", a, i]                   *)
+(* (qualifiers bind tightest: row 1 of the table)                           *)
 (***************************************************************************)
 EXTENDS Integers, Sequences, FiniteSets
 
@@ -27,6 +29,10 @@ Call(f, args) == [k |-> "call", f |-> f, args |-> args]
 Agg(items) == [k |-> "agg", items |-> items]
 Rep(a, n) == [k |-> "rep", a |-> a, n |-> n]
 Interval(lo, lop, x, hop, hi) == [k |-> "interval", lo |-> lo, lop |-> lop, x |-> x, hop |-> hop, hi |-> hi]
+Query(v, src, cond) == [k |-> "query", v |-> v, src |-> src, cond |-> cond]
+Dot(a, name) == [k |-> "dot", a |-> a, name |-> name]
+Group(a, name) == [k |-> "group", a |-> a, name |-> name]
+Index(a, i) == [k |-> "index", a |-> a, i |-> i]
 
 (* binding strength of the root of an expression (0 = atom) *)
 Level(e) == IF e.k = "bin" THEN Prec(e.op) ELSE IF e.k = "un" THEN UnaryPrec ELSE 0
@@ -48,6 +54,11 @@ Render(e) ==
     [] e.k = "call" -> e.f \o "(" \o Join([i \in 1..Len(e.args) |-> Render(e.args[i])], ", ") \o ")"
     [] e.k = "agg" -> "[" \o Join([i \in 1..Len(e.items) |-> Render(e.items[i])], ", ") \o "]"
     [] e.k = "rep" -> Render(e.a) \o " : " \o Render(e.n)
+    [] e.k = "query" -> "QUERY(" \o e.v \o " <* " \o Render(e.src) \o " | " \o Render(e.cond) \o ")"
+    \* a qualifier applies to a primary: an operator expression that is qualified needs parentheses
+    [] e.k = "dot" -> (IF Level(e.a) > 0 THEN Paren(Render(e.a)) ELSE Render(e.a)) \o "." \o e.name
+    [] e.k = "group" -> (IF Level(e.a) > 0 THEN Paren(Render(e.a)) ELSE Render(e.a)) \o "\\" \o e.name
+    [] e.k = "index" -> (IF Level(e.a) > 0 THEN Paren(Render(e.a)) ELSE Render(e.a)) \o "[" \o Render(e.i) \o "]"
     [] e.k = "interval" -> "{" \o Render(e.lo) \o " " \o e.lop \o " " \o Render(e.x) \o " " \o e.hop \o " " \o Render(e.hi) \o "}"
 
 (* Dev_SplitLiteralReparenthesised (known finding): the printer splits a string literal that does not fit on the  *)
